@@ -82,6 +82,26 @@ func Discharge(o *Obligation, timeoutS int, allSolvers bool) *Result {
 	f.WriteString(q)
 	f.Close()
 	defer os.Remove(f.Name())
+	// first attempt: the query sliced to the goal's definitional cone (fewer quantified frames); unsat is conclusive
+	if o.Expect == "unsat" {
+		if sq, ok := o.SlicedQuery(Prelude); ok {
+			if sf, err := os.CreateTemp(WorkDir, "s*.smt2"); err == nil {
+				sf.WriteString(sq)
+				sf.Close()
+				to := timeoutS
+				if to > 5 {
+					to = 5
+				}
+				ans, _, secs := runSolver(Solvers[0], to, sf.Name())
+				os.Remove(sf.Name())
+				r.Seconds += secs
+				if ans == "unsat" {
+					r.Status, r.Solver, r.Answer = "discharged", Solvers[0].Name+"/sliced", ans
+					return r
+				}
+			}
+		}
+	}
 	hasQuant := strings.Contains(q, "(forall ") || strings.Contains(q, "(exists ")
 	for i, s := range Solvers {
 		_ = hasQuant
